@@ -125,8 +125,9 @@ def sighted (d0 : Dev σ) (loc : σ) (vt ts : Int) : Dev σ :=
 /-- `if not self.next_valid_to or self.next_valid_to > valid_to: self.next_valid_to = valid_to` -/
 def lowerNext (nx : Option Int) (vt : Int) : Option Int := if lowers nx vt then some vt else nx
 
-/-- `_see_device`: lazy purge at the packet's timestamp, create or refresh, location bookkeeping,
-    watermark.  Result: the device record and `new_location`, or `none` for a broken device. -/
+/-- `_see_device`: a message without a uuid USN is ignored without touching any state (validated first);
+    otherwise lazy purge at the packet's timestamp, create or refresh, location bookkeeping, watermark.
+    Result: the device record and `new_location`, or `none` for a broken device. -/
 def seeDevice (ipv : σ → Option Nat) (s : Tracker σ) (m : Msg σ) : Tracker σ × Option (σ × Dev σ × Bool) :=
   match m.udn, m.loc with
   | some u, some loc =>
@@ -134,7 +135,7 @@ def seeDevice (ipv : σ → Option Nat) (s : Tracker σ) (m : Msg σ) : Tracker 
       lowerNext (purge s m.ts).next (m.ts + m.maxAge)⟩,
      some (u, sighted (refreshed (purge s m.ts) u (m.ts + m.maxAge)) loc (m.ts + m.maxAge) m.ts,
            locChanged ipv (refreshed (purge s m.ts) u (m.ts + m.maxAge)).locs loc))
-  | _, _ => (purge s m.ts, none)
+  | _, _ => (s, none)
 
 /-- `see_search` + `SsdpListener._on_search` -/
 def seeSearch (ipv : σ → Option Nat) (skip : σ → Bool) (s : Tracker σ) (m : Msg σ) : Tracker σ × Option (Notif σ) :=
